@@ -28,6 +28,7 @@ def check(ctx, tier):
     to_numpy(ctx, tk)
     iteration(ctx, tk)
     list_constructor(ctx, tk)
+    dtype_flow(ctx, tk)
     save_load(ctx, tk)
     layout.prefix_sum_rules(ctx, tk, "C01.b")
     layout.code_layout_rules(ctx, tk, "C01.b")
@@ -38,7 +39,7 @@ def check(ctx, tier):
                                                         "tolist", "shape", "lengths", "__len__")])
     tk.purity("C01.p", [ctx.func(q) for q in ['raggedarray.RaggedArray.__len__', 'raggedarray.RaggedArray.shape', 'raggedarray.RaggedArray.lengths', 'raggedarray.RaggedArray.__iter__', 'raggedarray.RaggedArray.tolist', 'raggedarray.RaggedArray.astype', 'raggedarray.RaggedArray.to_numpy_array', 'raggedarray.RaggedArray.save', 'raggedarray.RaggedArray.equals', 'raggedarray.RaggedArray.from_numpy_array', 'raggedarray.RaggedArray._from_array_list', 'raggedshape.ViewBase.starts', 'raggedshape.ViewBase.ends', 'raggedshape.ViewBase.lengths', 'raggedshape.ViewBase.ravel_multi_index', 'raggedshape.ViewBase.unravel_multi_index', 'raggedshape.ViewBase.index_array', 'raggedshape.RaggedShape.size', 'raggedshape.RaggedShape.to_dict']], "the operation does not write into its operands' buffers", content_only=True)
     from .. import hazards as _hz, scopes as _sc
-    _hz.generic(ctx, tk, "C01.z", _sc.scope(tk, "C01"))
+    _hz.generic(ctx, tk, "C01.z", _sc.scope(tk, "C01", depth=2))
     return {}
 
 
@@ -95,8 +96,10 @@ def to_numpy(ctx, tk):
                 if any(_is_lengths(o) for o in ops) and any(o.k == "sub" and _is_lengths(o.a[0]) and is_const(o.a[1], 0) for o in ops):
                     return ("all_rows_equal", c.a[0] == "==")
         return None
-    forms = Formulas([alleq])
-    check_guard(ctx, "C01.c", f, sinks, forms, lambda A: A["all_rows_equal"], ["all_rows_equal"], what, fa=fa)
+    from ..guards import aggregate_only
+    forms = Formulas([alleq], irrelevant=aggregate_only)
+    check_guard(ctx, "C01.c", f, sinks, forms, lambda A: A["all_rows_equal"], ["all_rows_equal"], what, fa=fa,
+                describe="a comparison of totals (size == L * n_rows) does not make the rows equally long: lengths [1, 0, 2] pass it")
     # the (0, 0) shortcut is taken only for an array without rows (an array of empty rows keeps its row count)
     for r in fa.cfg.returns():
         tm = fa.term(r.ast.value, r)
@@ -212,6 +215,40 @@ def list_constructor(ctx, tk):
                 ok = False if ok is not None else None
         ctx.decide("C01.c", f, what, ok, "data comprehension iterates %s, lengths comprehension iterates %s" % (
             its_d[0].a[2][0] if its_d else "?", its_s[0].a[2][0] if its_s else "?"), node=n.ast, engine="E6")
+
+
+def dtype_flow(ctx, tk):
+    """E4: the element type asked for at construction reaches every place where the caller's buffer / list of rows
+    is turned into an array (a conversion without it takes numpy's default for the values)"""
+    what = "the requested dtype reaches the conversion of the caller's data into an array"
+    for q in (RA + ".__init__", RA + "._from_array_list"):
+        f = ctx.func(q)
+        if "dtype" not in f.params:
+            ctx.violated("C01.f", f, what, "no dtype parameter", engine="E4")
+            continue
+        fa = ctx.fa(f)
+        dp = f.params[f.params.index("dtype")]
+        data_p = f.params[1]
+        n = 0
+        for node, c in find_calls(fa, lambda c: np_call_(c, {"asanyarray", "asarray", "array"}) and c.a[1]):
+            if not any(x.k == "param" and x.a[0] == data_p for x in walk(c.a[1][0])):
+                continue
+            n += 1
+            dt = dict(c.a[2]).get("dtype", c.a[1][1] if len(c.a[1]) > 1 else None)
+            ok = dt is not None and any(x.k == "param" and x.a[0] == dp for x in walk(dt))
+            later = any(isinstance(x, ast.Call) and isinstance(x.func, ast.Attribute) and x.func.attr in ("astype", "view") and any(
+                isinstance(y, ast.Name) and y.id == dp for a in list(x.args) + [k.value for k in x.keywords] for y in ast.walk(a)) for x in ast.walk(f.node))
+            ctx.decide("C01.f", f, what, True if ok else (None if later else False),
+                       "`%s` converts the caller's data without the requested dtype: a list buffer with dtype=bool/uint8 comes out int64, an empty one float64" % (c,),
+                       node=c.node, key="conversion", engine="E4")
+        # delegation to the list constructor passes the dtype on
+        for node, c in find_calls(fa, lambda c: c.a[0].k == "attr" and c.a[0].a[1] == "_from_array_list"):
+            n += 1
+            args = list(c.a[1]) + [v for _k, v in c.a[2]]
+            ok = any(x.k == "param" and x.a[0] == dp for a in args for x in walk(a))
+            ctx.decide("C01.f", f, what, True if ok else False, "`%s` drops the requested dtype" % (c,), node=c.node, key="delegation", engine="E4")
+        if not n:
+            ctx.unknown("C01.f", f, what, "no conversion of the data parameter recognised", engine="E4")
 
 
 def save_load(ctx, tk):
